@@ -245,6 +245,11 @@ func (e *Encoder) Value(v *av.V) {
 			e.W.WriteByte(byte(uint64(ms) >> uint(s)))
 		}
 	case av.String:
+		if v.S == "" && e.choose(2, "empty-string-as-null") == 1 {
+			// an absent string equals the empty string: the Go encoder itself writes "" this way
+			e.W.WriteByte('N')
+			return
+		}
 		e.String(v.S, true)
 	case av.Binary:
 		// only a []byte struct field is read by a reader that expects a binary
